@@ -40,6 +40,10 @@ def run_case(fn, replay=None, signature=None, sample=None, timeout_ms=5000, max_
             try:
                 ok, detail = replay(f)
             except Exception as e:
+                if "CaseTimeout" in f"{e}\n{traceback.format_exc()}":
+                    from .runner import CaseTimeout
+
+                    raise CaseTimeout()  # the watchdog fired inside a C call during the replay: the case is a timeout
                 ok, detail = False, f"replay crashed: {type(e).__name__}: {e}\n{traceback.format_exc()[-800:]}"
             v["replayed"] = bool(ok)
             v["detail"] = detail
